@@ -28,6 +28,6 @@ LEVEL_TEXT = ("Machine-checked Coq theorems (inductive invariants, unbounded ser
               "the others, all errors surfaced. Model tied to /repo by event-log acceptance on every run.")
 LEVEL_NOTE = ("Partial in DESIGN.md's sense: queue, channels, context, WaitGroup, error collector and the Service life cycle (C10) are model "
               "primitives; theorems quantify over all interleavings of the modelled atomic steps, scheduler fairness is trusted; the tie to the "
-              "code is differential (recorded event logs of ~900 scenario runs per quick check replayed through the model's acceptor).")
+              "code is differential (recorded event logs of ~4000 scenario runs per quick check, ~40000 thorough replayed through the model's acceptor).")
 TECHNIQUE = "Coq proof (inductive invariants over transition systems, token conservation) + vm_compute acceptance of event logs recorded on the real srv code"
 DRIVER_TIMEOUT = {"quick": 900, "thorough": 6000}
